@@ -33,13 +33,12 @@ func runG9(c *Ctx, names ...string) {
 }
 
 func g9Tabulate(c *Ctx, name string, fi *FuncInfo) {
-	sw := c.R
 	or := &Oracle{}
 	rows := 0
 	short := fi.Fn.Name()
 	for n := 0; n < 2000; n++ {
 		or.pos = 0
-		in := &Interp{repo: c.Repo, plugin: "derive", decls: sw.decls, or: or, memo: map[string]int{}, shape: 2,
+		in := &Interp{repo: c.Repo, plugin: "derive", decls: c.GDecls, or: or, memo: map[string]int{}, shape: 2,
 			arities: []int{2, 1, 0}, preds: map[string]Value{}, stack: map[*ast.FuncDecl]int{}, imports: map[string]int{}, importUse: map[string]bool{},
 			holes: map[string]*Hole{}, g9mode: true}
 		arg := &VOpaque{Origin: "t"}
@@ -237,7 +236,7 @@ func g9ZeroFunc(c *Ctx, fi *FuncInfo) {
 	nilable := map[string]bool{"*types.Pointer": true, "*types.Slice": true, "*types.Map": true, "*types.Chan": true, "*types.Signature": true, "*types.Interface": true}
 	for n := 0; n < 500; n++ {
 		or.pos = 0
-		in := &Interp{repo: c.Repo, plugin: "derive", decls: c.R.decls, or: or, memo: map[string]int{}, shape: 2,
+		in := &Interp{repo: c.Repo, plugin: "derive", decls: c.GDecls, or: or, memo: map[string]int{}, shape: 2,
 			arities: []int{1}, preds: map[string]Value{}, stack: map[*ast.FuncDecl]int{}, imports: map[string]int{}, importUse: map[string]bool{}, holes: map[string]*Hole{}}
 		arg := &VOpaque{Origin: "t"}
 		var res Value
@@ -331,7 +330,7 @@ func g9Ordered(c *Ctx, names ...string) {
 		or := &Oracle{}
 		for n := 0; n < 200; n++ {
 			or.pos = 0
-			in := &Interp{repo: c.Repo, plugin: "derive", decls: c.R.decls, or: or, memo: map[string]int{}, shape: 1, arities: []int{1},
+			in := &Interp{repo: c.Repo, plugin: "derive", decls: c.GDecls, or: or, memo: map[string]int{}, shape: 1, arities: []int{1},
 				preds: map[string]Value{}, stack: map[*ast.FuncDecl]int{}, imports: map[string]int{}, importUse: map[string]bool{}, holes: map[string]*Hole{}, g9mode: true}
 			arg := &VOpaque{Origin: "t"}
 			var res Value
@@ -398,7 +397,7 @@ func g12HasUndefined(c *Ctx) {
 	rows := 0
 	for n := 0; n < 3000; n++ {
 		or.pos = 0
-		in := &Interp{repo: c.Repo, plugin: "derive", decls: c.R.decls, or: or, memo: map[string]int{}, shape: 1, arities: []int{1, 2},
+		in := &Interp{repo: c.Repo, plugin: "derive", decls: c.GDecls, or: or, memo: map[string]int{}, shape: 1, arities: []int{1, 2},
 			preds: map[string]Value{}, stack: map[*ast.FuncDecl]int{}, imports: map[string]int{}, importUse: map[string]bool{}, holes: map[string]*Hole{}, g9mode: true}
 		arg := &VOpaque{Origin: "argtype"}
 		recv := &VPtr{Elem: &VStruct{Fields: map[string]Value{"Expr": &VOpaque{Origin: "expr"}, "Name": hole("NAME", "callname"), "Args": &VList{Elems: []Value{arg}}}}}
@@ -520,7 +519,7 @@ func g13Fields(c *Ctx) {
 		c.Rep.fail(Finding{Rule: "G13", Key: "G13|Private|missing", Kind: "undecided", Msg: "(*Field).Private not found"})
 	} else {
 		for _, name := range []string{"Exported", "lower", "_under", "_", "世界", "Ünïcode", "ünïcode", "x", "X"} {
-			in := &Interp{repo: c.Repo, plugin: "derive", decls: c.R.decls, or: &Oracle{}, memo: map[string]int{}, shape: 1, arities: []int{1},
+			in := &Interp{repo: c.Repo, plugin: "derive", decls: c.GDecls, or: &Oracle{}, memo: map[string]int{}, shape: 1, arities: []int{1},
 				preds: map[string]Value{}, stack: map[*ast.FuncDecl]int{}, imports: map[string]int{}, importUse: map[string]bool{}, holes: map[string]*Hole{}, g9mode: true}
 			recv := &VPtr{Elem: &VStruct{Fields: map[string]Value{"name": lit(name), "external": VBool{Sym: "external"}, "Type": &VOpaque{Origin: "fieldtype"}, "typeStr": VNil{}}}}
 			var res Value
@@ -652,7 +651,7 @@ func g9Methods(c *Ctx, specs ...methodSpec) {
 		for n := 0; n < 4000; n++ {
 			or.pos = 0
 			ar := []int{1, 0, 2}
-			in := &Interp{repo: c.Repo, plugin: "derive", decls: c.R.decls, or: or, memo: map[string]int{}, shape: 1, arities: ar,
+			in := &Interp{repo: c.Repo, plugin: "derive", decls: c.GDecls, or: or, memo: map[string]int{}, shape: 1, arities: ar,
 				preds: map[string]Value{}, stack: map[*ast.FuncDecl]int{}, imports: map[string]int{}, importUse: map[string]bool{}, holes: map[string]*Hole{}, g9mode: true}
 			arg := &VOpaque{Origin: "t", Kind: "*types.Named"}
 			var res Value
